@@ -107,6 +107,7 @@ type PkgContracts struct {
 	KindProps map[string][]string
 	Axioms    []*Axiom
 	GlobalInvs []*Contract
+	TypeInvs   []*Contract
 	PkgPath   string
 	Dir       string
 	PkgName   string
@@ -119,7 +120,7 @@ type PkgContracts struct {
 	clauseSeq int
 }
 
-var kwRe = regexp.MustCompile(`^(import|pure|rec|opaque|abstract|virtual|ghostfun|specmethod|method|callee|closure|ghost_entry|ghost_return|ghost_at|assert_at|include|kindprops|func|assume|interface|functype|captures|axiom|globalinv|requires|ensures|assigns|decreases|loop|invariant|lemma|props|ghost|let|flag|refines|var)\b`)
+var kwRe = regexp.MustCompile(`^(import|pure|rec|opaque|abstract|virtual|ghostfun|specmethod|method|callee|closure|ghost_entry|ghost_return|ghost_at|assert_at|include|kindprops|func|assume|interface|functype|captures|axiom|globalinv|typeinv|requires|ensures|assigns|decreases|loop|invariant|lemma|props|ghost|let|flag|refines|var)\b`)
 
 func parseContractFile(path, pkgPath string) (*PkgContracts, error) {
 	b, err := os.ReadFile(path)
@@ -359,6 +360,26 @@ func parseContractFile(path, pkgPath string) (*PkgContracts, error) {
 			ax.Target = pkgPath + ".axiom." + cl.Label
 			pc.Contracts = append(pc.Contracts, ax)
 			pc.Axioms = append(pc.Axioms, &Axiom{Name: cl.Label, PkgPath: pkgPath, Clause: cl})
+		case "typeinv":
+			// typeinv (x T) EXPR : invariant of the encapsulated objects of type T: assumed at the entry of
+			// T's methods, checked whenever a function of the package returns a T
+			m := regexp.MustCompile(`^\(\s*([A-Za-z_][A-Za-z_0-9]*)\s+([^)]+)\)\s*(.*)$`).FindStringSubmatch(rest)
+			if m == nil {
+				return nil, fmt.Errorf("%s:%d: bad typeinv", path, l.line)
+			}
+			ti := &Contract{Kind: "typeinv", PkgPath: pkgPath, PkgDir: pc.Dir, Loops: map[int]*LoopContract{}, Flags: map[string]bool{}, File: path, Line: l.line, Props: defProps}
+			ti.Recv = &Binder{Name: m[1], Type: strings.TrimSpace(m[2])}
+			rest = m[3]
+			save := cur
+			cur = ti
+			cl := mkClause("requires")
+			cur = save
+			cl.Owner = ti
+			ti.Requires = append(ti.Requires, cl)
+			ti.Name = cl.Label
+			ti.Target = pkgPath + ".typeinv." + ti.Recv.Type + "." + cl.Label
+			pc.Contracts = append(pc.Contracts, ti)
+			pc.TypeInvs = append(pc.TypeInvs, ti)
 		case "globalinv":
 			gi := &Contract{Kind: "globalinv", PkgPath: pkgPath, PkgDir: pc.Dir, Loops: map[int]*LoopContract{}, Flags: map[string]bool{}, File: path, Line: l.line, Props: defProps}
 			save := cur
@@ -869,7 +890,7 @@ func tuple(x ...interface{}) interface{} { return nil }
 func strof(b []byte) string { return "" }
 func same(a, b interface{}) bool { return true }
 func unchanged(l ...interface{}) bool { return true }
-func call(f interface{}, args ...interface{}) interface{} { return nil }
+func call[T any](f interface{}, args ...interface{}) (r T) { return }
 func callb(f interface{}, args ...interface{}) bool { return true }
 func visited(k interface{}) bool { return true }
 func ncalls() int { return 0 }
@@ -884,7 +905,7 @@ func fields[T any]() interface{} { return nil }
 func pointee(x interface{}) interface{} { return nil }
 func itercount() int { return 0 }
 type rangeindex = int
-var _ = []interface{}{forall, exists, implies, fresh, cells, mapcells, locs, nothing, dyntype, allocated, tuple, strof, same, unchanged, call, callb, visited, pointee}
+var _ = []interface{}{forall, exists, implies, fresh, cells, mapcells, locs, nothing, dyntype, allocated, tuple, strof, same, unchanged, callb, visited, pointee}
 `
 
 func (c *Contract) allBinders() []Binder {
